@@ -197,9 +197,15 @@ func (c *Classifier) match(in io.Reader) (Results, error) {
 			out = append(out, candidates[i])
 		}
 	}
+	// An input without any token can get here when the threshold lets every
+	// document through the first pass (threshold 0).
+	totalLines := 0
+	if len(id.Tokens) > 0 {
+		totalLines = id.Tokens[len(id.Tokens)-1].Line
+	}
 	return Results{
 		Matches:         out,
-		TotalInputLines: id.Tokens[len(id.Tokens)-1].Line,
+		TotalInputLines: totalLines,
 	}, nil
 }
 
